@@ -16,9 +16,11 @@
   * RSI: `pos/(pos+neg)` (½ when both vanish) of the realised averages of gains and losses (`C05_rsi_step`).
   * Chande momentum: from an invariant state the running sums are the window sums of positive / negative parts and
     the value is `(P−N)/(P+N)` (0 when both vanish) (`C05_cmo_step`).
+  * Aroon: `(period − age)/period` of the newest highest high / lowest low, the ages being characterised by
+    `HighestIndex.Inv` (C04: newest maximal element) (`C05_aroon_step`).
   * Money-flow: the source's `1 − 1/(1 + pmf/nmf)` is `pmf/(pmf+nmf)` (`C05_mfi_formula`).
   * Parabolic SAR: the returned pair is the state after the flip test (`C05_sar_values`).
-  Partial: Aroon, Bollinger, Stochastic, Keltner, Envelopes, Ichimoku, CMF, TSI/SMI value theorems over whole
+  Partial: Bollinger, Stochastic, Keltner, Envelopes, Ichimoku, CMF, TSI/SMI value theorems over whole
   histories are not written (those models are validated by the correspondence run only); floats are outside.
 -/
 import YataProofs.Indicators.More
@@ -70,6 +72,16 @@ theorem C05_cmo_step {P : Nat} {s : CMO} (k : Candle ℚ) (h : CMO.Inv P s) :
       v.value = (if s'.pos_sum + s'.neg_sum = 0 then 0 else (s'.pos_sum - s'.neg_sum) / (s'.pos_sum + s'.neg_sum)) ∧
       -1 ≤ v.value ∧ v.value ≤ 1 := CMO.vals_spec k h
 
+theorem C05_aroon_step {P : Nat} {s : Aroon} (k : Candle ℚ)
+    (hh : HighestIndex.Inv P s.highest_index) (hl : LowestIndex.Inv P s.lowest_index) :
+    ∃ v hi li s', Aroon.vals P s k = .ok (v, (hi, li), s') ∧
+      v.map VExp.value = [((s.cfg.period - hi : Nat) : ℚ) / (s.cfg.period : ℚ), ((s.cfg.period - li : Nat) : ℚ) / (s.cfg.period : ℚ)] ∧
+      HighestIndex.Inv P s'.highest_index ∧ LowestIndex.Inv P s'.lowest_index ∧
+      hi = s'.highest_index.index ∧ li = s'.lowest_index.index ∧
+      Window.toList s'.highest_index.window = (Window.toList s.highest_index.window).tail ++ [k.high] ∧
+      Window.toList s'.lowest_index.window = (Window.toList s.lowest_index.window).tail ++ [k.low] ∧ s'.cfg = s.cfg :=
+  Aroon.vals_spec k hh hl
+
 theorem C05_mfi_formula (p n : ℚ) (hp : 0 ≤ p) (hn : 0 < n) : 1 - 1 / (1 + p / n) = p / (p + n) := mfi_formula p n hp hn
 
 theorem C05_sar_values (s : SAR) (k : Candle ℚ) :
@@ -91,3 +103,4 @@ end Yata.C05
 #print axioms Yata.C05.C05_cmo_step
 #print axioms Yata.C05.C05_mfi_formula
 #print axioms Yata.C05.C05_sar_values
+#print axioms Yata.C05.C05_aroon_step
